@@ -1,6 +1,7 @@
 (* Properties_C16.v — C16: substitutions behave as finite maps from parameters to expressions. *)
 From Coq Require Import List PeanoNat Bool String.
 From IprV Require Import GenTypes Derived GenDerived Subst SubstSource.
+From IprV Require StateSpace.
 Import ListNotations.
 
 Theorem c16_elementary_apply : forall p v q,
@@ -34,6 +35,12 @@ Example c16_nonvacuous :
   map (elem_apply 4 (Value 7)) [4; 5] = [Value 7; Param 5].
 Proof. vm_compute. auto. Qed.
 
+(* a general substitution is its map, an elementary one its two references (StateSpace.v against the regenerated GenState) *)
+Theorem c16_state_is_what_the_model_abstracts :
+  StateSpace.state_as_modelled (StateSpace.substitution_state) = true.
+Proof. vm_compute. reflexivity. Qed.
+
+Print Assumptions c16_state_is_what_the_model_abstracts.
 Print Assumptions c16_elementary_apply.
 Print Assumptions c16_elementary_source_denotes.
 Print Assumptions c16_elementary_factory_forwards.
